@@ -88,6 +88,7 @@ theorem step_local {s s' : St V} {l : Label V} (h : step s l = some s') :
   | cCloseStep =>
     rcases step_cCloseStep h with ⟨_, _, rfl⟩ | ⟨_, _, rfl⟩ | ⟨_, _, _, rfl⟩ <;> exact ⟨rfl, .inl ⟨rfl, rfl⟩⟩
   | ctxEnds => obtain ⟨_, _, rfl⟩ := step_ctxEnds h; exact ⟨rfl, .inl ⟨rfl, rfl⟩⟩
+  | cExpire => obtain ⟨_, rfl⟩ := step_cExpire h; exact ⟨rfl, .inl ⟨rfl, rfl⟩⟩
 
 /-- no step changes where the context comes from -/
 theorem step_origin {s s' : St V} {l : Label V} (h : step s l = some s') : s'.origin = s.origin := by
@@ -110,6 +111,7 @@ theorem step_origin {s s' : St V} {l : Label V} (h : step s l = some s') : s'.or
   | cCall live => obtain ⟨_, rfl⟩ := step_cCall h; rfl
   | cEnd => obtain ⟨_, _, _, rfl⟩ := step_cEnd h; rfl
   | cCtx => obtain ⟨_, rfl⟩ := step_cCtx h; rfl
+  | cExpire => obtain ⟨_, rfl⟩ := step_cExpire h; rfl
   | cClose => obtain ⟨_, rfl⟩ := step_cClose h; rfl
   | cCloseStep => rcases step_cCloseStep h with ⟨_, _, rfl⟩ | ⟨_, _, rfl⟩ | ⟨_, _, _, rfl⟩ <;> rfl
 
